@@ -637,11 +637,64 @@ async fn seq_case_async(case: u64, rng: &mut Rng, st: &mut Stats, n_stmts: usize
     let mut max_seq = before.seq;
     let (mut n_commit, mut n_refused) = (0, 0);
     let mut codes = BTreeSet::new();
-    for _ in 0..n_stmts {
+    // one case in four plays a scripted merge chain in the middle of its generated statements:
+    // a -> b, b -> c, then tuple clauses that name the Concept TWO hops from its survivor; they
+    // must resolve to the Proposition that already exists about the survivor
+    let mut script_stage = if case % 4 == 1 { 0usize } else { 99 };
+    let mut sid: BTreeMap<String, String> = BTreeMap::new();
+    for step_no in 0..n_stmts {
         let w = world_of(&before.scan);
-        let stmt = gen_stmt(rng, &mut g, &w, prev.as_ref(), &CFG_C17);
+        let plain = |text: String, kinds: Vec<&'static str>, params: Vec<(&str, String)>| {
+            let mut cmd = Cmd::new(text);
+            for (k, v) in params {
+                cmd = cmd.param(k, json!(v));
+            }
+            Stmt { cmd, kinds, fail: None, dry: "none", restricted: false, retry_of_previous: false }
+        };
+        let scripted = script_stage < 6 && step_no >= 2;
+        let stmt = if scripted {
+            script_stage += 1;
+            let t = format!("mc{case}");
+            let id = |k: &str| sid.get(k).cloned().unwrap_or_default();
+            match script_stage {
+                1 => plain(
+                    format!("MUTATE {{ CREATE CONCEPT ?ma {{ TYPE \"Person\" NAME \"{t}a\" }} CREATE CONCEPT ?mb {{ TYPE \"Person\" NAME \"{t}b\" }} CREATE CONCEPT ?mc {{ TYPE \"Person\" NAME \"{t}c\" }} CREATE CONCEPT ?mo {{ TYPE \"Preference\" NAME \"{t}o\" SET ATTRIBUTES {{strength: 0.5}} }} }}"),
+                    vec!["create_concept", "create_concept", "create_concept", "create_concept"],
+                    vec![],
+                ),
+                2 => plain("ENSURE PROPOSITION ?mq1 (:s, \"prefers\", :o)".into(), vec!["ensure"], vec![("s", id("mc")), ("o", id("mo"))]),
+                3 => plain(format!("MERGE CONCEPT {} INTO {}", jstr(&id("ma")), jstr(&id("mb"))), vec!["merge"], vec![]),
+                4 => plain(format!("MERGE CONCEPT {} INTO {}", jstr(&id("mb")), jstr(&id("mc"))), vec!["merge"], vec![]),
+                5 => plain("ENSURE PROPOSITION ?mq2 (:s, \"prefers\", :o)".into(), vec!["ensure_hit"], vec![("s", id("ma")), ("o", id("mo"))]),
+                _ => plain(
+                    "MUTATE { ENSURE PROPOSITION ?mq3 (:s1, \"prefers\", :o) ASSERT ?mx (:s2, \"prefers\", :o) { by: :s2, mode: \"stated\", confidence: 0.6 } }".into(),
+                    vec!["ensure_hit", "assert_sugar"],
+                    vec![("s1", id("mb")), ("s2", id("ma")), ("o", id("mo"))],
+                ),
+            }
+        } else {
+            gen_stmt(rng, &mut g, &w, prev.as_ref(), &CFG_C17)
+        };
         let via = if stmt.restricted { Via::Session(&fx.restricted) } else { Via::System(&fx.nexus) };
         let out = exec(&via, &stmt.cmd).await?;
+        if scripted {
+            st.count("scripted_merge_chain_statements");
+            if script_stage == 1 {
+                for h in ["ma", "mb", "mc", "mo"] {
+                    if let Some(v) = out.result["handles"][h].as_str() {
+                        sid.insert(h.to_string(), v.to_string());
+                    }
+                }
+                if sid.len() != 4 {
+                    script_stage = 99; // the profile refused the creation: no script in this case
+                }
+            } else if !out.committed() {
+                st.count(&format!("scripted_merge_chain_stage_{script_stage}_not_committed:{}", out.error_code));
+                script_stage = 99;
+            } else if script_stage >= 5 {
+                st.count("scripted_tuple_clause_through_a_two_hop_merge_chain");
+            }
+        }
         let after = observe(&fx.nexus).await?;
         st.eval();
         st.add("battery_queries", after.n_queries);
@@ -899,6 +952,65 @@ fn vis_case(case: u64, rng: &mut Rng, st: &mut Stats, rounds: usize, with_previe
                 st
             }));
         }
+        // META readers on OS threads and runtimes of their own (two connections of a server end up
+        // on two workers): EXPORT CAPSULE and DESCRIBE PRIMER read many rows in one command and
+        // must be whole-statement snapshots exactly like KQL reads
+        let primer_base = read(&nexus, "DESCRIBE PRIMER").await.ok().and_then(|p| p["contents"]["concept"].as_u64());
+        let mut meta_threads = vec![];
+        for r in 0..2u64 {
+            let (nexus, done) = (nexus.clone(), done.clone());
+            meta_threads.push(std::thread::spawn(move || {
+                let mut st = Stats::default();
+                let Ok(rt) = tokio::runtime::Builder::new_current_thread().enable_time().build() else { return st };
+                rt.block_on(async {
+                    set_case("vis", case);
+                    let mut i = 0u64;
+                    loop {
+                        let finished = done.load(Ordering::SeqCst);
+                        if (i + r) % 2 == 0 {
+                            match read(&nexus, "EXPORT CAPSULE ?c WHERE { ?c CONCEPT {type: \"Event\"} } WITH {closure: \"none\"}").await {
+                                Ok(cap) => {
+                                    st.count("vis_meta_reads_export");
+                                    let recs = cap["payload"]["records"]["concepts"].as_array().cloned().unwrap_or_default();
+                                    let live = recs.iter().filter(|c| c["state"].as_str().unwrap_or("active") != "pending" && c["_system"]["state"].as_str().unwrap_or("active") != "pending").count();
+                                    if live % b != 0 {
+                                        report_once(&mut st, "C17/visibility/partial_statement_observed_by_export", || {
+                                            json!({"what": "an EXPORT CAPSULE carried a number of Event concepts that no set of whole statements produces", "count": live, "batch": b, "case": case,
+                                                   "snapshot_seq": cap["payload"]["source"]["snapshot_seq"]})
+                                        });
+                                    }
+                                }
+                                Err(e) if e.starts_with("HARNESS-PARSE") => st.inconclusive(format!("C17 vis: EXPORT did not parse: {e}")),
+                                Err(_) => st.count("vis_meta_export_refused(measured)"),
+                            }
+                        } else if let Some(base) = primer_base {
+                            match read(&nexus, "DESCRIBE PRIMER").await {
+                                Ok(p) => {
+                                    st.count("vis_meta_reads_primer");
+                                    if let Some(n) = p["contents"]["concept"].as_u64() {
+                                        if with_preview && (n < base || ((n - base) as usize) % b != 0) {
+                                            // PREVIEW KML mints and removes its shells under the shared lock
+                                            st.count("vis_primer_count_off_while_previews_run(measured)");
+                                        } else if n < base || ((n - base) as usize) % b != 0 {
+                                            report_once(&mut st, "C17/visibility/partial_statement_observed_by_primer", || {
+                                                json!({"what": "DESCRIBE PRIMER reported a number of concepts that no set of whole statements produces", "count": n, "before_the_writer_started": base, "batch": b, "case": case})
+                                            });
+                                        }
+                                    }
+                                }
+                                Err(_) => st.count("vis_meta_primer_refused(measured)"),
+                            }
+                        }
+                        i += 1;
+                        if finished {
+                            break;
+                        }
+                        tokio::task::yield_now().await;
+                    }
+                });
+                st
+            }));
+        }
         let mut wr = Rng::new(seed);
         let mut wst = Stats::default();
         for round in 0..rounds {
@@ -939,6 +1051,12 @@ fn vis_case(case: u64, rng: &mut Rng, st: &mut Stats, rounds: usize, with_previe
             match r.await {
                 Ok(s) => wst.merge(s),
                 Err(e) => return Err(format!("reader task: {e}")),
+            }
+        }
+        for t in meta_threads {
+            match tokio::task::spawn_blocking(move || t.join()).await {
+                Ok(Ok(s)) => wst.merge(s),
+                _ => return Err("META reader thread panicked".into()),
             }
         }
         Ok(wst)
@@ -1070,7 +1188,7 @@ fn main() {
     if run.wants("vis") {
         // every second case has no PREVIEW among the writer's statements: pending rows seen by a
         // reader there would come from a committing or refused statement
-        run.parallel("vis", t.pick(16, 120), 0.4, |c, rng, st| vis_case(c, rng, st, t.pick(40, 120), c % 2 == 0));
+        run.parallel("vis", t.pick(64, 240), 0.4, |c, rng, st| vis_case(c, rng, st, t.pick(40, 120), c % 2 == 0));
     }
     if run.wants("crash") {
         run.parallel("crash", t.pick(12, 80), 0.9, |c, rng, st| crash_case(c, rng, st, t.pick(5, 7), t.pick(40, 1500)));
@@ -1110,6 +1228,9 @@ fn main() {
     run.floor("oracle_tuple_resolves_inside_its_space", 100);
     run.floor("vis_reads_overlapping_or_following_a_commit", 50);
     run.floor("vis_writer_commits", 50);
+    run.floor("vis_meta_reads_export", 100);
+    run.floor("scripted_tuple_clause_through_a_two_hop_merge_chain", 20);
+    run.floor("vis_meta_reads_primer", 100);
     run.floor("crash_prefixes", 100);
     run.floor("crash_reopen_ok", 100);
     run.finish();
